@@ -195,14 +195,37 @@ def build_gsv():
     return r.stdout.strip().splitlines()[-1], ""
 
 
+def _run_chunk(binary, lines, env, timeout):
+    data = "\n".join(lines) + "\n"
+    r = subprocess.run([binary], input=data, text=True, capture_output=True, env=env, timeout=timeout)
+    return r.stdout.splitlines(), r.returncode, r.stderr[-2000:]
+
+
 def run_lines(binary, lines, env_extra=None, timeout=3600):
+    """one request per line, one response per line; large batches are sharded over the cores (requests are
+    independent of each other, the order of the responses is preserved)"""
     env = dict(os.environ)
     if env_extra:
         env.update(env_extra)
-    data = "\n".join(lines) + "\n"
-    r = subprocess.run([binary], input=data, text=True, capture_output=True, env=env, timeout=timeout)
-    out = r.stdout.splitlines()
-    return out, r.returncode, r.stderr[-2000:]
+    weight = sum(len(l) for l in lines)
+    n = min(14, max(1, len(lines) // 400, weight // 400000))
+    if n <= 1 or len(lines) < 2:
+        return _run_chunk(binary, lines, env, timeout)
+    import concurrent.futures
+    size = -(-len(lines) // n)
+    chunks = [lines[i:i + size] for i in range(0, len(lines), size)]
+    with concurrent.futures.ThreadPoolExecutor(max_workers=len(chunks)) as ex:
+        res = list(ex.map(lambda c: _run_chunk(binary, c, env, timeout), chunks))
+    out, rc, err = [], 0, ""
+    for c, (o, r, e) in zip(chunks, res):
+        if len(o) != len(c):
+            # a shard died: keep what it produced, then stop (the caller locates the line)
+            out += o
+            return out, r or 1, e
+        out += o
+        rc = rc or r
+        err = err or e
+    return out, rc, err
 
 
 def run_gsv(binary, lines):
